@@ -60,14 +60,18 @@ var c18Weird = []string{
 	"pkg: v2", "pkg #tools", "*star", "&anchor/pkg", "!tag/pkg", "{flow}", "[seq]", "- dash", "yes", "no", "null", "~", "1e3", "0x1F", "012",
 	"true", "trailing space ", " leading", "quo\"te", "single'quote", "back\\slash", "ünï/çödé/包", "a|b", "a.b.c/d", "key: {x: [1,2]}",
 	"multi\nline", "tab\there", "@at", "`tick", "%percent", ">fold", "|lit", "?query", ",comma", "#hash", "", "example.com/w/…",
+	// what people paste from `go get` / `go install`: the argument is a package string like any other
+	"example.com/w/pkg@v1.4.0", "weird: path #1@v2", "example.com/tools/cmd@latest", "pkg@v2.0.0-rc.1+build", "a@b", "@latest", "pkg@", "gopkg.in/yaml.v3", "pkg/v2", "pkg/...", "./rel/pkg", "../up", "C:\\win\\path", "pkg?x=1&y=2", "pkg;rm", "$HOME/pkg", "${X}", "%s%d", "{{.X}}",
 }
+
+var c18Cwds = []string{"conf/odd[v2]", "conf/st*r?", "conf/sp ace", "conf/nested"}
 
 func c18Gen(r *core.Rng, seed uint64) c18Case {
 	o := world.GenOpts{MinPkgs: 2, MaxPkgs: 3, MaxIfacesPerPkg: 3, AllowXRef: true}
 	pkgs := world.GenPackages(r, o)
 	p := &world.Project{Module: c09Mod, Pkgs: pkgs, Aux: map[string]string{}, NoConfig: true}
 	p.Aux["docs/readme.txt"] = "bystander\n"
-	p.Dirs = []string{"conf", "conf/nested"}
+	p.Dirs = append([]string{"conf"}, c18Cwds...)
 	cs := c18Case{Tree: p.Tree(), Seed: seed, Real: map[string][]string{}, Dirs: map[string]string{}}
 	for _, q := range pkgs {
 		cs.Real[c09Mod+"/"+q.Dir] = q.AllIfaces(nil)
@@ -97,7 +101,8 @@ func c18Gen(r *core.Rng, seed uint64) c18Case {
 	// some histories run from a sub-directory: a relative target is then relative to it
 	cwd := ""
 	if r.Chance(1, 4) && !strings.HasPrefix(target, "missing-dir") {
-		cwd = pkgs[0].Dir
+		// a package directory, or a directory whose name means something to glob / shell / YAML
+		cwd = core.Pick(r, append([]string{pkgs[0].Dir, pkgs[0].Dir}, c18Cwds...))
 	}
 	defer func() {
 		for i := range cs.Ops {
@@ -451,10 +456,10 @@ func c18MapDiff(a, b map[string]any) string {
 
 func RunC18(c *core.Ctx) int {
 	c.PrepareRepo(true)
-	n := 150 + 2*len(c18Weird)
+	n := 150 + 2*len(c18Weird) + len(c18Cwds)
 	budget := 20 * time.Minute // quick: the case count is the contract, the clock only a watchdog
 	if c.Tier == "thorough" {
-		n = 3000 + 2*len(c18Weird)
+		n = 3000 + 2*len(c18Weird) + len(c18Cwds)
 		budget = 28 * time.Minute
 	}
 	cp := &Campaign[c18Case]{C: c, Engine: "W", N: n, Budget: budget,
@@ -474,6 +479,11 @@ func RunC18(c *core.Ctx) int {
 					env = c18Env(r)
 				}
 				cs.Ops = []c18Op{{Kind: "init", Pkg: w, Config: tgt, FlagFirst: r.Bool(), Env: env}, {Kind: "defaults", Config: tgt}, {Kind: "run", Config: tgt}, {Kind: "init", Pkg: core.Pick(r, c18Weird), Config: tgt}, {Kind: "showconfig", Config: tgt}}
+			} else if k := i - 2*len(c18Weird); k < len(c18Cwds) {
+				// directed part: init for a real package and a plain run, both from a directory whose
+				// name means something to glob, the shell or YAML (the configuration is discovered, not named)
+				real := core.SortedKeys(cs.Real)[0]
+				cs.Ops = []c18Op{{Kind: "init", Pkg: real, Cwd: c18Cwds[k]}, {Kind: "showconfig", Cwd: c18Cwds[k]}, {Kind: "run", Cwd: c18Cwds[k]}}
 			}
 			return cs
 		},
